@@ -55,9 +55,45 @@ impl ToOut for Array2<f64> {
     }
 }
 
-/// Results of the five calling forms on one and the same records array.
+/// Overwrite a target buffer element-wise with a (generated) junk value of its own type: what a
+/// caller re-using a buffer hands to `predict_inplace`.
+pub trait Junk {
+    fn fill_junk(&mut self, k: u8);
+}
+const JUNK_F64: [f64; 4] = [7.25, -3.5, 1.0e6, 0.5];
+impl Junk for Array1<f64> {
+    fn fill_junk(&mut self, k: u8) {
+        self.fill(JUNK_F64[(k % 4) as usize]);
+    }
+}
+impl Junk for Array2<f64> {
+    fn fill_junk(&mut self, k: u8) {
+        self.fill(JUNK_F64[(k % 4) as usize]);
+    }
+}
+impl Junk for Array1<usize> {
+    fn fill_junk(&mut self, k: u8) {
+        self.fill(3 + (k % 9) as usize);
+    }
+}
+impl Junk for Array1<bool> {
+    fn fill_junk(&mut self, k: u8) {
+        self.fill(k % 2 == 0);
+    }
+}
+impl Junk for Array1<Pr> {
+    fn fill_junk(&mut self, k: u8) {
+        self.fill(Pr::new([0.25, 1.0, 0.0, 0.75][(k % 4) as usize]));
+    }
+}
+
+/// Results of the calling forms on one and the same records array.
 pub struct Forms {
     pub inplace: Out,
+    /// `predict_inplace` into a buffer of the default shape pre-filled with junk
+    pub inplace_junk: Out,
+    /// `predict_inplace` a second time into the buffer that already holds the result
+    pub inplace_twice: Out,
     pub by_ref: Out,
     pub by_val: Out,
     pub ds_ref: Out,
@@ -69,9 +105,11 @@ pub struct Forms {
 }
 
 impl Forms {
-    pub fn named(&self) -> [(&'static str, &Out); 5] {
+    pub fn named(&self) -> [(&'static str, &Out); 7] {
         [
             ("predict_inplace(default_target)", &self.inplace),
+            ("predict_inplace(buffer pre-filled with junk)", &self.inplace_junk),
+            ("predict_inplace(twice into the same buffer)", &self.inplace_twice),
             ("predict(&records)", &self.by_ref),
             ("predict(records)", &self.by_val),
             ("predict(&dataset)", &self.ds_ref),
@@ -87,15 +125,21 @@ fn same_array<S1: Data<Elem = f64>, S2: Data<Elem = f64>>(a: &ArrayBase<S1, Ix2>
 }
 
 /// the five forms on an owned array (any memory layout)
-pub fn owned_forms<M, T>(m: &M, x: &Array2<f64>) -> Forms
+pub fn owned_forms<M, T>(m: &M, x: &Array2<f64>, junk: u8) -> Forms
 where
     M: PredictInplace<Array2<f64>, T>,
-    T: ToOut + AsTargets,
+    T: ToOut + AsTargets + Junk,
 {
     let rows = x.nrows();
     let mut t = m.default_target(x);
     m.predict_inplace(x, &mut t);
     let inplace = t.to_out();
+    m.predict_inplace(x, &mut t);
+    let inplace_twice = t.to_out();
+    let mut t = m.default_target(x);
+    t.fill_junk(junk);
+    m.predict_inplace(x, &mut t);
+    let inplace_junk = t.to_out();
     let by_ref = <M as Predict<&Array2<f64>, T>>::predict(m, x).to_out();
     let d = <M as Predict<Array2<f64>, DatasetBase<Array2<f64>, T>>>::predict(m, x.clone());
     let by_val_records_same = same_array(&d.records, x);
@@ -105,19 +149,25 @@ where
     let d2 = <M as Predict<DatasetBase<Array2<f64>, Array1<usize>>, DatasetBase<Array2<f64>, T>>>::predict(m, ds);
     let ds_val_records_same = same_array(&d2.records, x);
     let ds_val = d2.targets.to_out();
-    Forms { inplace, by_ref, by_val, ds_ref, ds_val, by_val_records_same, ds_val_records_same }
+    Forms { inplace, inplace_junk, inplace_twice, by_ref, by_val, ds_ref, ds_val, by_val_records_same, ds_val_records_same }
 }
 
 /// the five forms on a borrowed view (any memory layout)
-pub fn view_forms<'v, M, T>(m: &M, x: ArrayView2<'v, f64>) -> Forms
+pub fn view_forms<'v, M, T>(m: &M, x: ArrayView2<'v, f64>, junk: u8) -> Forms
 where
     M: PredictInplace<ArrayView2<'v, f64>, T>,
-    T: ToOut + AsTargets,
+    T: ToOut + AsTargets + Junk,
 {
     let rows = x.nrows();
     let mut t = m.default_target(&x);
     m.predict_inplace(&x, &mut t);
     let inplace = t.to_out();
+    m.predict_inplace(&x, &mut t);
+    let inplace_twice = t.to_out();
+    let mut t = m.default_target(&x);
+    t.fill_junk(junk);
+    m.predict_inplace(&x, &mut t);
+    let inplace_junk = t.to_out();
     let by_ref = <M as Predict<&ArrayView2<'v, f64>, T>>::predict(m, &x).to_out();
     let d = <M as Predict<ArrayView2<'v, f64>, DatasetBase<ArrayView2<'v, f64>, T>>>::predict(m, x);
     let by_val_records_same = same_array(&d.records, &x);
@@ -128,15 +178,29 @@ where
         <M as Predict<DatasetBase<ArrayView2<'v, f64>, Array1<usize>>, DatasetBase<ArrayView2<'v, f64>, T>>>::predict(m, ds);
     let ds_val_records_same = same_array(&d2.records, &x);
     let ds_val = d2.targets.to_out();
-    Forms { inplace, by_ref, by_val, ds_ref, ds_val, by_val_records_same, ds_val_records_same }
+    Forms { inplace, inplace_junk, inplace_twice, by_ref, by_val, ds_ref, ds_val, by_val_records_same, ds_val_records_same }
+}
+
+/// `predict_inplace(x2)` into the buffer that holds the result of `predict_inplace(x1)` (same length)
+pub fn owned_reuse<M, T>(m: &M, x1: &Array2<f64>, x2: &Array2<f64>) -> Out
+where
+    M: PredictInplace<Array2<f64>, T>,
+    T: ToOut,
+{
+    let mut t = m.default_target(x1);
+    m.predict_inplace(x1, &mut t);
+    m.predict_inplace(x2, &mut t);
+    t.to_out()
 }
 
 /// What the driver needs from a fitted model.
 pub trait Pred {
-    /// all five forms on an owned array of arbitrary memory layout
-    fn forms_owned(&self, x: &Array2<f64>) -> Forms;
-    /// all five forms on a borrowed view; `None` when the model accepts owned arrays only
-    fn forms_view(&self, x: ArrayView2<'_, f64>) -> Option<Forms>;
+    /// all calling forms on an owned array of arbitrary memory layout
+    fn forms_owned(&self, x: &Array2<f64>, junk: u8) -> Forms;
+    /// all calling forms on a borrowed view; `None` when the model accepts owned arrays only
+    fn forms_view(&self, x: ArrayView2<'_, f64>, junk: u8) -> Option<Forms>;
+    /// in-place prediction of `x2` into the buffer holding the in-place prediction of `x1`
+    fn reuse(&self, x1: &Array2<f64>, x2: &Array2<f64>) -> Out;
     /// `predict(&x)` alone
     fn one(&self, x: &Array2<f64>) -> Out;
 }
@@ -150,14 +214,17 @@ pub fn any_layout<M, T>(m: &M) -> AnyLayout<'_, M, T> {
 
 impl<'m, M, T> Pred for AnyLayout<'m, M, T>
 where
-    T: ToOut + AsTargets,
+    T: ToOut + AsTargets + Junk,
     M: PredictInplace<Array2<f64>, T> + for<'v> PredictInplace<ArrayView2<'v, f64>, T>,
 {
-    fn forms_owned(&self, x: &Array2<f64>) -> Forms {
-        owned_forms::<M, T>(self.0, x)
+    fn forms_owned(&self, x: &Array2<f64>, junk: u8) -> Forms {
+        owned_forms::<M, T>(self.0, x, junk)
     }
-    fn forms_view(&self, x: ArrayView2<'_, f64>) -> Option<Forms> {
-        Some(view_forms::<M, T>(self.0, x))
+    fn forms_view(&self, x: ArrayView2<'_, f64>, junk: u8) -> Option<Forms> {
+        Some(view_forms::<M, T>(self.0, x, junk))
+    }
+    fn reuse(&self, x1: &Array2<f64>, x2: &Array2<f64>) -> Out {
+        owned_reuse::<M, T>(self.0, x1, x2)
     }
     fn one(&self, x: &Array2<f64>) -> Out {
         <M as Predict<&Array2<f64>, T>>::predict(self.0, x).to_out()
@@ -174,14 +241,17 @@ pub fn owned_only<M, T>(m: &M) -> OwnedOnly<'_, M, T> {
 
 impl<'m, M, T> Pred for OwnedOnly<'m, M, T>
 where
-    T: ToOut + AsTargets,
+    T: ToOut + AsTargets + Junk,
     M: PredictInplace<Array2<f64>, T>,
 {
-    fn forms_owned(&self, x: &Array2<f64>) -> Forms {
-        owned_forms::<M, T>(self.0, x)
+    fn forms_owned(&self, x: &Array2<f64>, junk: u8) -> Forms {
+        owned_forms::<M, T>(self.0, x, junk)
     }
-    fn forms_view(&self, _x: ArrayView2<'_, f64>) -> Option<Forms> {
+    fn forms_view(&self, _x: ArrayView2<'_, f64>, _junk: u8) -> Option<Forms> {
         None
+    }
+    fn reuse(&self, x1: &Array2<f64>, x2: &Array2<f64>) -> Out {
+        owned_reuse::<M, T>(self.0, x1, x2)
     }
     fn one(&self, x: &Array2<f64>) -> Out {
         <M as Predict<&Array2<f64>, T>>::predict(self.0, x).to_out()
